@@ -136,9 +136,9 @@ func TestVerif_C01(t *testing.T) {
 	if got := fmt.Sprintf("%x", ref.TrieRoot(map[string][]byte{}, 0)); got != "03170a2e7597b7b7e3d84c05391d139a62b157e78786d8c082f29dcf4c111314" {
 		t.Fatalf("reference empty root wrong: %s", got)
 	}
-	dShort := verifmc.Pick(3, 4)
+	dShort := verifmc.Pick(3, 5)
 	dLong := verifmc.Pick(3, 4)
-	dSeed := verifmc.Pick(2, 3)
+	dSeed := verifmc.Pick(2, 4)
 	for _, ver := range []trie.TrieLayout{trie.V0, trie.V1} {
 		c01Explore(t, r, "short", ver, dShort)
 		c01Explore(t, r, "long", ver, dLong)
